@@ -189,7 +189,7 @@ class C12:
             vectors.append(v)
             c = rng.random()
             d, dk = rng.choice(datas)
-            ref = self.ref_calc_args(cfg, v, d)
+            ref = self.ref_calc_args(cfg, v, d, mo)
             what = rng.choice(['lnprior', 'lnlike', 'lnposterior',
                                'lnposterior', 'forward'])
             keyed = rng.choice(['dict', 'list'])
@@ -289,7 +289,7 @@ class C12:
                         'center': [val_(c) for c in mm['center']]})
         return out
 
-    def ref_calc_args(self, cfg, v, data):
+    def ref_calc_args(self, cfg, v, data, mo=None):
         mem = self.subst(cfg, v)
         if any(mm['r'] < 0 for mm in mem):
             return None
@@ -301,7 +301,12 @@ class C12:
         else:
             sc = {'op': 'spheres', 'args': {'members': mem, 'warn': False}}
         return {'calcs': None, 'kind': 'holo', 'det': data,
-                'sc': None, '_inline_sc': sc, 'th': cfg['thk'],
+                'sc': None, '_inline_sc': sc,
+                # 'auto' is resolved once, when the model is built (from
+                # the guesses): the reference uses the theory the model holds
+                'th': ({'of_model': mo} if cfg['thk'] == 'auto'
+                       and cfg['nsph'] > 1 and mo is not None
+                       else cfg['thk']),
                 'optics': cfg['optics_eff'],
                 'scaling': alpha if cfg['mk'] == 'alpha' else None}
 
